@@ -34,18 +34,28 @@ def gen_config(rng, max_vials=30, max_steps=900, cn=False):
     if rng.random() < 0.5:
         over["solution"] = {"solid_fraction": rng.choice([0.01, 0.05, 0.1, 0.2])}
     if rng.random() < 0.3:
+        # another solvent melting point (heavy water 3.82 C, all-kelvin units 273.15) and solute
+        over.setdefault("solution", {}).update(T_eq=rng.choice([3.82, -0.5, 273.15]), k_f=rng.choice([1.853, 2.05]), M_s=rng.choice([0.3423, 0.18]))
+    if rng.random() < 0.3:
         over.setdefault("vial", {})["geometry"] = {"height": rng.choice([0.005, 0.01, 0.02]), "length": rng.choice([0.01, 0.015]), "width": 0.01}
     if rng.random() < 0.3:
         over["kinetics"] = {"a": rng.choice([25.0, 29.0, 20.0]), "b": rng.choice([29.3, 20.0, 12.0]), "c": rng.choice([0.0, 1.0, 0.5])}
     over.setdefault("snowfall_parameters", {})["vial_arrangement"] = arr
     T_init = rng.choice([None, None, start, start + 5, 25])
+    if over.get("solution", {}).get("T_eq") == 273.15:
+        # kelvin configuration: the program and the initial temperature are in kelvin too
+        start, end = start + 273.15, end + 273.15
+        for h in holds:
+            h["temp"] = round(h["temp"] + 273.15, 2)
+        T_init = None if T_init is None else T_init + 273.15
     cfg = dict(arr=arr, shape=shape, k=k, dt=float(dt), T_init=T_init, over=over,
                initIce=rng.choice(["indirect", "direct"]), seed=rng.randint(0, 10 ** 6), seed_v=rng.randint(0, 10 ** 6),
                prog=dict(start=start, end=end, rate=rate, holds=holds, t_tot=float(round(t_tot, 1)), dt=float(dt)),
                cnTemp=None, thr=rng.choice([0.9, 0.9, 0.5, 0.95, 0.05, 0.12]))
     if cn:
-        lo = max(end, -25)
-        cfg["cnTemp"] = rng.choice([h["temp"] for h in holds] + [round(rng.uniform(lo, min(start, -2)), 1)]) if rng.random() < 0.7 or not holds \
+        off = 273.15 if over.get("solution", {}).get("T_eq") == 273.15 else 0.0
+        lo = max(end, -25 + off)
+        cfg["cnTemp"] = rng.choice([h["temp"] for h in holds] + [round(rng.uniform(lo, min(start, -2 + off)), 1)]) if rng.random() < 0.7 or not holds \
             else holds[0]["temp"]
     return cfg
 
